@@ -27,6 +27,7 @@ WITH THE SOFTWARE OR THE USE OR OTHER DEALINGS IN THE SOFTWARE.
 #ifndef ENODE_H
 #define ENODE_H
 
+#include <atomic>
 #include "CgTypes.h"
 
 #include <common/TypeUtils.h>
@@ -75,7 +76,7 @@ class EnodeAllocator;
 class Enode final
 {
 private:
-    static uint32_t cgid_ctr;
+    static std::atomic<uint32_t> cgid_ctr; // shared by the E-graphs of all solver instances, possibly in different threads
 
     ERef    root;           // The root of this enode's equivalence class
     cgId    cid;            // The congruence id of the enode (never changes)
